@@ -967,4 +967,100 @@ example :
     dvect (M3.mul exV F.transpose) true true true (M3.mulVec F p0) (M3.mulVec F p1) = M3.mulVec F ⟨-1/2, 1/2, 0⟩ := by
   decide +kernel
 
+/-! ### another Cartesian frame: isometries of positions and box (round 4)
+  `dv_homogeneous` needs the deformed candidates to keep their order; for an isometry that is automatic. -/
+
+/-- an isometry (`FᵀF = I`, proper or improper) preserves squared lengths. -/
+theorem normSq_isometry (F : M3 K) (hR : M3.mul F.transpose F = M3.one) (v : V3 K) :
+    V3.normSq (M3.mulVec F v) = V3.normSq v := by
+  have h := hR
+  simp only [M3.mul, M3.vecMul, M3.transpose, M3.one, M3.mk.injEq, V3.mk.injEq] at h
+  obtain ⟨⟨h00, h01, h02⟩, ⟨h10, h11, h12⟩, ⟨h20, h21, h22⟩⟩ := h
+  simp only [V3.normSq, V3.dot, M3.mulVec]
+  linear_combination v.x * v.x * h00 + v.x * v.y * h01 + v.x * v.z * h02 + v.y * v.x * h10 + v.y * v.y * h11
+    + v.y * v.z * h12 + v.z * v.x * h20 + v.z * v.y * h21 + v.z * v.z * h22
+
+/-- **dv_isometry.**  The `dvect` loops commute with an isometry of positions and box vectors whenever the image they
+    select in the original frame is the strict minimum (the hypothesis `hmin1` of `dv_homogeneous` follows from `hmin0`). -/
+theorem dv_isometry (F V : M3 K) (hR : M3.mul F.transpose F = M3.one) (px py pz : Bool) (p0 p1 : V3 K) (s : Shift)
+    (hs : s ∈ cands px py pz)
+    (hmin0 : ∀ t ∈ cands px py pz, shiftBy V (p1 - p0) t = shiftBy V (p1 - p0) s ∨
+      V3.normSq (shiftBy V (p1 - p0) s) < V3.normSq (shiftBy V (p1 - p0) t)) :
+    dvect (M3.mul V F.transpose) px py pz (M3.mulVec F p0) (M3.mulVec F p1)
+      = M3.mulVec F (dvect V px py pz p0 p1) := by
+  apply dv_homogeneous F V px py pz p0 p1 s hs hmin0
+  intro t ht
+  rcases hmin0 t ht with h | h
+  · left; rw [h]
+  · right; rw [normSq_isometry F hR, normSq_isometry F hR]; exact h
+
+/-- the separation of `a`, `b` under cell `c` is decided: one candidate image is the strict minimum. -/
+def UniqueImage (c : Cell K) (a b : V3 K) : Prop :=
+  ∃ s ∈ cands c.px c.py c.pz, ∀ t ∈ cands c.px c.py c.pz,
+    shiftBy c.vects (b - a) t = shiftBy c.vects (b - a) s ∨
+      V3.normSq (shiftBy c.vects (b - a) s) < V3.normSq (shiftBy c.vects (b - a) t)
+
+/-- the cell seen in the frame `F`: every box vector mapped by `F` (`vects.dot(F.T)`), same periodicity. -/
+def Cell.frame (F : M3 K) (c : Cell K) : Cell K := ⟨M3.mul c.vects F.transpose, c.px, c.py, c.pz⟩
+
+theorem dvCell_isometry (F : M3 K) (hR : M3.mul F.transpose F = M3.one) (c : Cell K) (a b : V3 K)
+    (h : UniqueImage c a b) :
+    (c.frame F).dv (M3.mulVec F a) (M3.mulVec F b) = M3.mulVec F (c.dv a b) := by
+  obtain ⟨s, hs, hmin⟩ := h
+  exact dv_isometry F c.vects hR c.px c.py c.pz a b s hs hmin
+
+theorem mulVec_sub (F : M3 K) (u w : V3 K) : M3.mulVec F (u - w) = M3.mulVec F u - M3.mulVec F w := by
+  ext <;> simp only [M3.mulVec, V3.dot, sub_x, sub_y, sub_z] <;> ring
+
+theorem mulVec_zero3 (F : M3 K) : M3.mulVec F (zero3 : V3 K) = zero3 := by
+  ext <;> simp [M3.mulVec, V3.dot, zero3]
+
+theorem foldl_slip_frame (F : M3 K) (c cf : Cell K) (pos0 pos1 q0 q1 : Nat → V3 K) (i : Nat) :
+    ∀ (l : List Nat) (acc : V3 K),
+      (∀ j ∈ l, cf.dv (q0 i) (q0 j) = M3.mulVec F (c.dv (pos0 i) (pos0 j)) ∧
+                cf.dv (q1 i) (q1 j) = M3.mulVec F (c.dv (pos1 i) (pos1 j))) →
+      l.foldl (slipStep cf q0 q1 i) (M3.mulVec F acc) = M3.mulVec F (l.foldl (slipStep c pos0 pos1 i) acc)
+  | [], _, _ => rfl
+  | j :: l, acc, h => by
+    simp only [List.foldl_cons]
+    have hj := h j List.mem_cons_self
+    have e : slipStep cf q0 q1 i (M3.mulVec F acc) j = M3.mulVec F (slipStep c pos0 pos1 i acc j) := by
+      simp only [slipStep, hj.1, hj.2, mulVec_sub]
+    rw [e]
+    exact foldl_slip_frame F c cf pos0 pos1 q0 q1 i l _ (fun k hk => h k (List.mem_cons_of_mem _ hk))
+
+/-- **frame_equivariant.**  Both systems seen in another Cartesian frame — positions and box vectors mapped by an
+    isometry `F` (`FᵀF = I`: rotations, axis permutations, reflections; the cell `vects·Fᵀ` may then carry its zero entries
+    anywhere, be upper-triangular or left-handed) —: wherever the periodic images are decided (one candidate is the strict
+    minimum), displacement, differential displacement and slip vector are the old ones mapped by `F`.  No assumption on
+    the shape of the cell. -/
+theorem frame_equivariant (F : M3 K) (hR : M3.mul F.transpose F = M3.one) (c0 c1 : Cell K) (pos0 pos1 : Nat → V3 K)
+    (nbrs : List Nat) (i j : Nat)
+    (hd : UniqueImage c1 (pos0 i) (pos1 i))
+    (h0 : UniqueImage c0 (pos0 i) (pos0 j)) (h1 : UniqueImage c1 (pos1 i) (pos1 j))
+    (hs : ∀ k ∈ nbrs, UniqueImage c0 (pos0 i) (pos0 k) ∧ UniqueImage c0 (pos1 i) (pos1 k)) :
+    displacement (c1.frame F) (fun k => M3.mulVec F (pos0 k)) (fun k => M3.mulVec F (pos1 k)) i
+      = M3.mulVec F (displacement c1 pos0 pos1 i) ∧
+    ddvector (c0.frame F) (c1.frame F) (fun k => M3.mulVec F (pos0 k)) (fun k => M3.mulVec F (pos1 k)) i j
+      = M3.mulVec F (ddvector c0 c1 pos0 pos1 i j) ∧
+    slipVector (c0.frame F) (fun k => M3.mulVec F (pos0 k)) (fun k => M3.mulVec F (pos1 k)) nbrs i
+      = M3.mulVec F (slipVector c0 pos0 pos1 nbrs i) := by
+  refine ⟨?_, ?_, ?_⟩
+  · simp only [displacement]; exact dvCell_isometry F hR c1 _ _ hd
+  · simp only [ddvector, mulVec_sub, dvCell_isometry F hR c1 _ _ h1, dvCell_isometry F hR c0 _ _ h0]
+  · unfold slipVector
+    have := foldl_slip_frame F c0 (c0.frame F) pos0 pos1 (fun k => M3.mulVec F (pos0 k)) (fun k => M3.mulVec F (pos1 k)) i
+      nbrs zero3 (fun k hk => ⟨dvCell_isometry F hR c0 _ _ (hs k hk).1, dvCell_isometry F hR c0 _ _ (hs k hk).2⟩)
+    rw [mulVec_zero3] at this
+    exact this
+
+/-- non-vacuity: the reversal x <-> z with a reflection of y is an isometry (improper); a pair through the periodic
+    boundary of a tilted cell has a unique image; in the new frame the cell's tilt entries lie above the diagonal. -/
+example : M3.mul (M3.transpose (⟨⟨0, 0, 1⟩, ⟨0, -1, 0⟩, ⟨1, 0, 0⟩⟩ : M3 ℚ)) ⟨⟨0, 0, 1⟩, ⟨0, -1, 0⟩, ⟨1, 0, 0⟩⟩ = M3.one := by
+  decide +kernel
+example : UniqueImage (⟨⟨⟨4, 0, 0⟩, ⟨2, 4, 0⟩, ⟨0, 0, 4⟩⟩, true, true, true⟩ : Cell ℚ) ⟨1/2, 1/2, 0⟩ ⟨3, 7/2, 0⟩ :=
+  ⟨(0, -1, 0), by decide +kernel, by decide +kernel⟩
+example : ((⟨⟨⟨4, 0, 0⟩, ⟨2, 4, 0⟩, ⟨0, 0, 4⟩⟩, true, true, true⟩ : Cell ℚ).frame ⟨⟨0, 0, 1⟩, ⟨0, -1, 0⟩, ⟨1, 0, 0⟩⟩).vects
+    = ⟨⟨0, 0, 4⟩, ⟨0, -4, 2⟩, ⟨4, 0, 0⟩⟩ := by decide +kernel
+
 end Atomman.C17
